@@ -1,0 +1,14 @@
+//go:build verif
+// +build verif
+
+package pipc
+
+// VerifHook, when set, is called at the named points (verification builds
+// only). A hook may block: it doubles as a scheduler gate.
+var VerifHook func(site string, name string)
+
+func verifPoint(site string, name string) {
+	if h := VerifHook; h != nil {
+		h(site, name)
+	}
+}
